@@ -88,3 +88,23 @@ pub fn c17_create_before_read(path: &std::path::Path) -> std::io::Result<String>
     let _f = std::fs::File::create(path.with_extension("out"))?;
     std::fs::read_to_string(path)
 }
+
+// ---- C08: in-place rewrite of a member of an inherited value -----------------------------------
+pub struct Member {
+    pub name: String,
+    pub namespace: Option<String>,
+}
+
+pub fn c08_rewrite_in_loop(members: &mut Vec<Member>, ns: &str) {
+    for m in members.iter_mut().filter(|m| m.namespace.is_some()) {
+        m.namespace = Some(ns.to_string());
+    }
+}
+
+pub fn c08_rewrite_through_borrow(member: &mut Member, ns: &str) {
+    member.name.clone_from(&ns.to_string());
+}
+
+pub fn c08_builds_fresh(name: &str) -> Member {
+    Member { name: name.to_string(), namespace: None }
+}
